@@ -91,7 +91,7 @@ func drawRelatedRules(t *Tape, parentNS string, step int) []interface{} {
 	for i := 0; i <= n; i++ {
 		k := kinds[t.Pick(len(kinds), "relkind")]
 		r := Object{"apiVersion": k.APIVersion(), "resource": k.Plural}
-		shapes := 9
+		shapes := 10
 		if step < 0 {
 			shapes = 7 // valid rules only
 		}
@@ -123,6 +123,9 @@ func drawRelatedRules(t *Tape, parentNS string, step int) []interface{} {
 			r["names"] = []interface{}{"r0"}
 		case 8: // a foreign namespace (invalid for a namespaced parent)
 			r["namespace"] = "ns3"
+		case 9: // invalid: both styles, the selector being the empty one
+			r["labelSelector"] = Object{}
+			r["names"] = []interface{}{"r1"}
 		}
 		rules = append(rules, r)
 	}
